@@ -147,9 +147,17 @@ package gomatrixserverlib
 //@   ensures iff: (err == nil) <==> selfSpec(*m)
 //@   assigns nothing
 
+// vjOK(name, key ID, public key, message) is by definition "VerifyJSON accepts"; what VerifyJSON
+// checks is proved below (C02).
 //@ func VerifyJSON
-//@   trusted
-//@   ensures abstract: (err == nil) <==> vjOK(signingName, keyID, str(publicKey), str(message))
+//@   property C02
+//@   results err
+//@   defines abstract: (err == nil) <==> vjOK(signingName, keyID, str(publicKey), str(message))
+//@   ensures accepts-only-after-verify: err == nil ==> (called(Verify) && ret(Verify))
+//@   ensures rejects-bad-signature: (called(Verify) && !ret(Verify)) ==> err != nil
+//@   calls Verify@root the-named-signature-under-the-given-key: str(publicKey) == str(root_publicKey) && len(sig) == 64 && str(message) == canonicalOf(str(ret(Marshal, 0))) && after(Unmarshal, signingName in *arg(Unmarshal, 1).("*map[string]map[KeyID]spec.Base64Bytes") && keyID in get(*arg(Unmarshal, 1).("*map[string]map[KeyID]spec.Base64Bytes"), signingName) && str(get(get(*arg(Unmarshal, 1).("*map[string]map[KeyID]spec.Base64Bytes"), signingName), keyID)) == str(sig))
+//@   calls Marshal@root every-member-but-signatures-and-unsigned: forall k string :: (k in v.("map[string]*json.RawMessage")) <==> (k != "signatures" && k != "unsigned" && after(Unmarshal, k in v.("map[string]*json.RawMessage")))
+//@   calls Marshal@root members-unchanged: forall k string :: (k in v.("map[string]*json.RawMessage")) ==> v.("map[string]*json.RawMessage")[k] == after(Unmarshal, v.("map[string]*json.RawMessage")[k])
 //@   assigns nothing
 
 //@ func (*membershipAllower).membershipAllowedFromThirdPartyInvite
@@ -1405,9 +1413,18 @@ package gomatrixserverlib
 //@   loop 1: invariant forall s string :: seen(1)[s] ==> (exists i int :: 0 <= i && i < len(toVerify) && string(toVerify[i].ServerName) == s)
 //@   loop 2: invariant 0 <= idx(2) && idx(2) <= len(results) && (forall i int :: 0 <= i && i < idx(2) ==> results[i].Error == nil)
 
-//@ func SignJSON
+//@ func CanonicalJSON
 //@   trusted
+//@   ensures canonical-form: result[1] == nil ==> str(result[0]) == canonicalOf(str(input))
 //@   assigns nothing
+
+//@ func SignJSON
+//@   property C02
+//@   calls Sign@root signs-canonical-form-without-signatures-and-unsigned: str(privateKey) == str(root_privateKey) && str(message) == canonicalOf(sjdel(sjdel(old(str(root_message)), "signatures"), "unsigned"))
+//@   calls Marshal@root earlier-signatures-kept: forall n string, k string :: (n in v.("map[string]map[KeyID]spec.Base64Bytes") && k in get(v.("map[string]map[KeyID]spec.Base64Bytes"), n)) <==> ((jhas(old(str(root_message)), "signatures") && after(Unmarshal, n in jfield(old(str(root_message)), "signatures", "map[string]map[KeyID]spec.Base64Bytes") && k in get(jfield(old(str(root_message)), "signatures", "map[string]map[KeyID]spec.Base64Bytes"), n))) || (n == root_signingName && k == root_keyID))
+//@   calls Marshal@root earlier-signatures-unchanged: forall n string, k string :: ((jhas(old(str(root_message)), "signatures") && after(Unmarshal, n in jfield(old(str(root_message)), "signatures", "map[string]map[KeyID]spec.Base64Bytes") && k in get(jfield(old(str(root_message)), "signatures", "map[string]map[KeyID]spec.Base64Bytes"), n))) && !(n == root_signingName && k == root_keyID)) ==> get(get(v.("map[string]map[KeyID]spec.Base64Bytes"), n), k) == after(Unmarshal, get(get(jfield(old(str(root_message)), "signatures", "map[string]map[KeyID]spec.Base64Bytes"), n), k))
+//@   calls Marshal@root new-signature-added: root_signingName in v.("map[string]map[KeyID]spec.Base64Bytes") && root_keyID in get(v.("map[string]map[KeyID]spec.Base64Bytes"), root_signingName) && str(get(get(v.("map[string]map[KeyID]spec.Base64Bytes"), root_signingName), root_keyID)) == str(ret(Sign))
+//@   ensures assembled: err == nil ==> str(signed) == canonicalOf((jhas(old(str(message)), "unsigned") && len(jfield(old(str(message)), "unsigned", spec.RawJSON)) > 0) ? sjset(sjset(str(arg(Sign, 1)), "signatures", str(ret(Marshal, 0))), "unsigned", str(jfield(old(str(message)), "unsigned", spec.RawJSON))) : sjset(str(arg(Sign, 1)), "signatures", str(ret(Marshal, 0))))
 
 // ---------------------------------------------------------------- C05: redaction
 
